@@ -37,6 +37,10 @@ class _ThreadingFacade(types.ModuleType):
   Event = prims.SimEvent
   RLock = prims.SimRLock
   Lock = prims.SimLock
+  Condition = prims.SimCondition
+  Semaphore = prims.SimSemaphore
+  BoundedSemaphore = prims.SimBoundedSemaphore
+  Timer = prims.SimTimer
   current_thread = staticmethod(prims.sim_current_thread)
   currentThread = staticmethod(prims.sim_current_thread)
   get_ident = staticmethod(prims.sim_get_ident)
@@ -88,6 +92,14 @@ def _replacement_for(obj, modname):
     return prims.SimRLock
   if obj is _threading.Lock:
     return prims.SimLock
+  if obj is _threading.Condition:
+    return prims.SimCondition
+  if obj is _threading.Semaphore:
+    return prims.SimSemaphore
+  if obj is _threading.BoundedSemaphore:
+    return prims.SimBoundedSemaphore
+  if obj is _threading.Timer:
+    return prims.SimTimer
   if obj is _threading.current_thread or obj is getattr(_threading, 'currentThread', None):
     return prims.sim_current_thread
   if obj is _threading.get_ident:
